@@ -834,9 +834,15 @@ class EventGenerator:
             return None
 
         clazz = var.clazz
-        if clazz is None or self.context.is_derived(value, clazz):
+        if clazz is None:
+            # The parser looks the class up by the element name
             meta = self.context.fetch(value.__class__, namespace)
             return self.real_xsi_type(var.qname, meta.target_qname)
+
+        if self.context.is_derived(value, clazz):
+            # The parser builds the declared class unless told otherwise
+            meta = self.context.fetch(value.__class__, namespace)
+            return meta.target_qname
 
         raise SerializerError(
             f"{value.__class__.__name__} is not derived from {clazz.__name__}"
